@@ -7,10 +7,9 @@ from .internal import value_properties as _value_properties
 
 
 def _splitlines(s: str) -> list[str]:
-    lines = s.splitlines(keepends=True)
-    if not lines or lines[-1].endswith('\n'):
-        lines.append('')
-    return lines
+    # Only '\n' ends a line in the grammar; str.splitlines() would also split at \f, \x85, \u2028, a lone \r, ...
+    parts = s.split('\n')
+    return [part + '\n' for part in parts[:-1]] + [parts[-1]]
 
 
 @_registry.token_model
